@@ -15,6 +15,7 @@ import (
 
 	"github.com/deadsy/sdfx/render"
 	"github.com/deadsy/sdfx/sdf"
+	v2 "github.com/deadsy/sdfx/vec/v2"
 	v3 "github.com/deadsy/sdfx/vec/v3"
 	"pgregory.net/rapid"
 
@@ -113,7 +114,9 @@ func out2(t *rapid.T, s sdf.SDF2, rname string, cells int, sink, dir string) str
 	}
 }
 
-// other models rendered before / concurrently (they share the renderer's global worker pool)
+// other renders executed before / concurrently: different models, resolutions and ALL renderer
+// kinds (uniform and octree marching cubes, uniform and quadtree marching squares) - they share the
+// global evaluation workers and whatever package-level state a renderer keeps.
 func otherModel(i int) sdf.SDF3 {
 	switch i % 3 {
 	case 0:
@@ -126,6 +129,20 @@ func otherModel(i int) sdf.SDF3 {
 		c, _ := sdf.Cylinder3D(4, 1.5, 0.3)
 		b, _ := sdf.Sphere3D(1.2)
 		return sdf.Union3D(c, sdf.Transform3D(b, sdf.Translate3d(v3.Vec{X: 1.5})))
+	}
+}
+
+func otherRender(i int) {
+	switch i % 4 {
+	case 0:
+		render.ToTriangles(otherModel(i), render.NewMarchingCubesUniform(8+i%7))
+	case 1:
+		render.ToTriangles(otherModel(i/2), render.NewMarchingCubesOctree(8+2*(i%5)))
+	case 2:
+		c, _ := sdf.Circle2D(1 + float64(i%4))
+		collect2(sdf.Union2D(c, sdf.Transform2D(sdf.Box2D(v2.Vec{X: 3, Y: 1}, 0.1), sdf.Translate2d(v2.Vec{X: float64(i % 3)}))), render.NewMarchingSquaresQuadtree(20+5*(i%9)))
+	default:
+		collect2(sdf.Box2D(v2.Vec{X: 2 + float64(i%3), Y: 1}, 0.2), render.NewMarchingSquaresUniform(15+i%10))
 	}
 }
 
@@ -192,8 +209,9 @@ func TestDeterministicAcrossConfigurations(t *testing.T) {
 			before := rapid.IntRange(0, 3).Draw(t, l+"preceding")
 			during := rapid.IntRange(0, 3).Draw(t, l+"concurrent")
 			runtime.GOMAXPROCS(procs)
+			hist := rapid.IntRange(0, 1000).Draw(t, l+"history-kind")
 			for i := 0; i < before; i++ {
-				render.ToTriangles(otherModel(ci+i), render.NewMarchingCubesUniform(10+i))
+				otherRender(hist + 5*i + ci)
 			}
 			var wg sync.WaitGroup
 			stop := make(chan struct{})
@@ -206,7 +224,10 @@ func TestDeterministicAcrossConfigurations(t *testing.T) {
 						case <-stop:
 							return
 						default:
-							render.ToTriangles(otherModel(i), render.NewMarchingCubesUniform(8+i))
+							otherRender(hist + 3*i + 1)
+							// the 2D renders never block: without a yield a single-P schedule would let each
+							// of these goroutines run out its 10 ms slice at every Gosched of the measured render
+							runtime.Gosched()
 						}
 					}
 				}(i)
